@@ -221,11 +221,13 @@ theorem enter_requests {w w2 : World} {v : VehicleId} {next : Act} (h : enter en
         · cases h
         · split at h
           · cases h
-          · simp only [Outcome.bind_eq, Outcome.bind_eq_ok, Outcome.pure_eq] at h
-            obtain ⟨st', henq, s1, h0, s2, h1, h2⟩ := h
-            cases h2
-            obtain ⟨_, _, _, _, hr, _⟩ := Sim.modifyStation_fields h0
-            exact Or.inl ⟨rfl, (by intro _ _ h; cases h), (fin h1).trans hr⟩
+          · split at h
+            · cases h
+            · simp only [Outcome.bind_eq, Outcome.bind_eq_ok, Outcome.pure_eq] at h
+              obtain ⟨st', henq, s1, h0, s2, h1, h2⟩ := h
+              cases h2
+              obtain ⟨_, _, _, _, hr, _⟩ := Sim.modifyStation_fields h0
+              exact Or.inl ⟨rfl, (by intro _ _ h; cases h), (fin h1).trans hr⟩
   case chargingBase b cid =>
     split at h
     · cases h
